@@ -86,6 +86,8 @@ type VC struct {
 	inputs    []InputVar
 	noFrame   bool
 	regionHavocOn bool
+	guardsOn  bool
+	inTypeInv bool
 	modSet    []modItem
 	merges    map[string][]string // merged reach constant -> its edge conditions
 	rowOf     map[string]Term     // slice term -> its backing array as a value (spec parameters)
